@@ -15,7 +15,7 @@ def run(ctx, drv):
                            "(+-inf, +-1e308, +-0.0, 5e-324) and random doubles with per-coordinate tie probability 0.5; "
                            "non-trivial = vectors differ in >= 1 coordinate or violations differ; distinct by request line. "
                            "One shared ParetoDominance instance is used for all cases in sequence (interleaving problems with "
-                           "different directions), a fresh instance for every 7th")
+                           "different directions), a fresh instance for every 7th + exact ints next to the doubles they round to, violations differing in the last place, directions re-declared on used problems, random direction-declaration sequences against the model")
     shared = C.ParetoDominance()
     default_dom = C.Archive()._dominance          # the library-wide shared default instance
     cases = []   # (constrained, dirs, a, b)
@@ -44,6 +44,9 @@ def run(ctx, drv):
         constrained = rng.random() < 0.5
         ca = rng.choice([0.0, 0.0, 1.0, 0.5, 5e-324, 1e308, plat.INF, abs(plat.rand_value(rng))])
         cb = ca if rng.random() < 0.4 else rng.choice([0.0, 1.0, 0.5, 5e-324, 1e308, plat.INF, abs(plat.rand_value(rng))])
+        if rng.random() < 0.1 and 0 < ca < plat.INF:
+            import math as _m
+            cb = _m.nextafter(ca, rng.choice([0.0, plat.INF]))       # violations that differ in the last place only
         if ca != ca or cb != cb:
             continue
         cases.append((constrained, dirs, tuple(a), ca, tuple(b), cb))
@@ -117,6 +120,67 @@ def run(ctx, drv):
         ctx.case(("redeclared", n, dirs, constrained), True)
     ctx.count("redeclared_direction_rounds", nre)
 
+    # ---- how directions are declared: random assignment sequences on a real problem.directions array against the model of
+    # Direction.to_direction + FixedLengthArray.__setitem__ (valid and invalid values, indices and slices)
+    dreqs, dgot, dinps = [], [], []
+    hexs = lambda t: ".".join(format(ord(ch), "x") for ch in t) or "-"
+    for _ in range(1500 if ctx.quick() else 20000):
+        n = rng.randrange(1, 5)
+        p = C.Problem(1, n)
+
+        def atom():
+            r = rng.random()
+            d = rng.random() < 0.5
+            if r < 0.35:
+                return (C.Direction.MAXIMIZE if d else C.Direction.MINIMIZE), f"D {int(d)}"
+            if r < 0.6:
+                v = rng.choice([1, -1, 1, -1, 0, 2])
+                return v, f"I {v}"
+            t = rng.choice(["maximize", "MINIMIZE", "Maximize", "minimize", "max", "MAXIMISE", ""])
+            return t, f"T {hexs(t)}"
+
+        ops_w, ok = [], True
+        applied = []
+        for _k in range(rng.randrange(1, 5)):
+            if rng.random() < 0.5:
+                v, w = atom()
+                vw = "A " + w
+            else:
+                items = [atom() for _ in range(rng.choice([n, n, rng.randrange(0, 5)]))]
+                v = [a for a, _ in items]
+                if rng.random() < 0.3:
+                    v = tuple(v)
+                vw = f"S {len(items)} " + " ".join(w for _, w in items)
+            if rng.random() < 0.5:
+                i = rng.randrange(0, n + 1)
+                sel_w, do = f"i {i}", (lambda i=i, v=v: p.directions.__setitem__(i, v))
+            else:
+                a, b = rng.randrange(0, n + 1), rng.randrange(0, n + 2)
+                sel_w, do = f"s {a} {b}", (lambda a=a, b=b, v=v: p.directions.__setitem__(slice(a, b), v))
+            ops_w.append(f"{sel_w} {vw}")
+            applied.append(f"{sel_w} {v!r}")
+            try:
+                do()
+            except Exception:
+                ok = False
+                break
+
+        def show(x):
+            if isinstance(x, C.Direction):
+                return "d1" if x == C.Direction.MAXIMIZE else "d0"
+            if isinstance(x, (list, tuple)):
+                return "l" + "".join("1" if e == C.Direction.MAXIMIZE else "0" for e in x)
+            return "?" + repr(x)
+        obs = ("ok " + " ".join(show(p.directions[i]) for i in range(n))) if ok else "err"
+        dreqs.append(f"dirops {n} {len(ops_w)} " + " ".join(ops_w))
+        dgot.append(obs.strip())
+        dinps.append({"nobjs": n, "assignments": applied})
+        ctx.case(("dirops", dreqs[-1]), ok)
+    ctx.count("direction_declaration_sequences", len(dreqs))
+    if drv.ok:
+        for line, g, m, di in zip(dreqs, drv.batch(dreqs), dgot, dinps):
+            if g.strip() != m:
+                ctx.disagree("direction declaration (to_direction + __setitem__) model vs implementation", di, m, g)
     if drv.ok:
         out = drv.batch(reqs)
         for line, g, m in zip(reqs, out, got):
